@@ -22,7 +22,7 @@ type c02 struct{ base }
 
 func init() {
 	runner.Register(&c02{base{id: "C02", level: "exploration",
-		rule:        "per case: a table state reached by a seeded write history (<=18 keys over 3 partitions whose names share prefixes, sort keys that are prefixes of one another, 2 index-hash x 3 index-range values so ties are the norm), then a request matrix: every source {base, hash-only GSI, hash+range GSI, LSI} x every partition value incl. an absent one x sort-key condition {none,=,<,<=,>,>=,BETWEEN,begins_with} with boundary operands x filter {none, 2 typed random filters} x direction; plus Scans of every source with filters. Oracle: model set + non-decreasing/non-increasing sort key + Count=len(Items). non-trivial = result has >=2 items or excludes >=1 item of the addressed partition; distinct by (adapter, source, condition kind, filter skeleton, direction, result size class). Every tenth state is INDEX-HEAVY: twelve more indexes over the same four attributes, declared with the table or added one by one to the table that holds items (seventeen indexes in all); the reads go through the first ones.",
+		rule:        "per case: a table state reached by a seeded write history (<=18 keys over 3 partitions whose names share prefixes, sort keys that are prefixes of one another, 2 index-hash x 3 index-range values so ties are the norm), then a request matrix: every source {base, hash-only GSI, hash+range GSI, LSI} x every partition value incl. an absent one x sort-key condition {none,=,<,<=,>,>=,BETWEEN,begins_with} with boundary operands x filter {none, 2 typed random filters} x direction; plus Scans of every source with filters. Oracle: model set + non-decreasing/non-increasing sort key + Count=len(Items). non-trivial = result has >=2 items or excludes >=1 item of the addressed partition; distinct by (adapter, source, condition kind, filter skeleton, direction, result size class). Every tenth state is INDEX-HEAVY: twelve more indexes over the same four attributes, declared with the table or added one by one to the table that holds items (seventeen indexes in all); the reads go through the first ones. Reads selected by registered native matchers (key and filter; registered before CreateTable, after it, on the live table) return what the matcher accepts.",
 		assumptions: commonAssumptions}})
 }
 
